@@ -142,6 +142,10 @@ pub fn guarded(f: impl FnOnce() -> CaseResult) -> CaseResult {
         Err(m) => {
             // signature: the panic site without the message's variable part
             let site = m.rsplit(" at ").next().unwrap_or("").to_string();
+            if !site.starts_with('/') || site.contains("/verif/") {
+                // the panic site is harness code (workspace-relative path): a harness bug, never a violation
+                return Err(Violation::new(format!("harness-panic@{}", site), format!("harness panic: {}", m)));
+            }
             Err(Violation::new(format!("panic@{}", short_site(&site)), format!("panic: {}", m)))
         }
     }
@@ -411,6 +415,10 @@ impl Ctx {
     }
 
     fn emit_violation(&mut self, v: &Violation, path: &PathBuf) {
+        if v.sig.starts_with("harness-panic") {
+            self.inconclusive(&format!("{} (case saved at {})", v.msg, path.display()));
+            return;
+        }
         if let Some(k) = self.known.iter_mut().find(|k| k.sig == v.sig) {
             if !k.printed {
                 println!("KNOWN-FINDING: property={} {} (sig={})", self.id, k.text, k.sig);
